@@ -119,7 +119,7 @@ class An:
             dl = (t['d'].get('mv') or t['d'].get('cp') or {}).get('l')
             for s in self.blocks[b]['s']:
                 r = s.get('r')
-                if r and r['k'] == 'discr' and s['d']['l'] == dl and r['p'] == {'l': d['l']}:
+                if r and r['k'] == 'discr' and s['d']['l'] == dl and r['p'] == {'l': d['l']}:  # noqa
                     for v, tgt in t['ts']:
                         out.setdefault(str(v), []).append((b, tgt))
                     if t['o'] in self.cfg.succ[b]:
